@@ -18,6 +18,13 @@ class Walk:
     def ok(self):
         return not self.errors
 
+    def release(self):
+        """Forget the node objects (they keep evicted nodes alive and their
+        reference counts up); the data of the walk stays."""
+        self.leaf_objs = []
+        self.interior_objs = []
+        return self
+
 
 def _activate(o):
     try:
